@@ -108,7 +108,7 @@ Qed.
 Theorem C07_oracle_no_stricter_than_model : forall c,
   wf_case c = true -> corr_b c = true -> prop_b c = true.
 Proof.
-  intros c Hwf Hc. unfold wf_case in Hwf. apply andb_true_iff in Hwf. destruct Hwf as [Hs _].
+  intros c Hs Hc. unfold wf_case in Hs.
   unfold corr_b in Hc. unfold prop_b.
   set (m := c_mgr c) in *. set (stop := c_stop c) in *. set (script := c_script c) in *.
   destruct (run_refines_spec m stop script Hs) as [P E].
